@@ -739,11 +739,126 @@ func ruleSanitiserLoops(w *World, r *Report) {
 
 // isExaminedRange: in RawWrite, writer.Write(source[i-n:i]) / source[l-n:] where n is a header phi that
 // is reset to 0 on the escape path and incremented by 1 on the plain path (the run of examined bytes).
+// isExaminedRangeFromStart recognises the other spelling of the same idiom: the pending range is source[start:i] (and
+// source[start:] after the loop) where `start` is a loop-carried offset that is either kept or set to i+1. It is safe
+// iff `start` is kept only on cycles on which the byte at i was looked up and found to need no escaping: every place
+// where the carried value flows back unchanged is dominated by the "lookup returned nil" edge.
+func (w *World) isExaminedRangeFromStart(fn *ssa.Function, sl *ssa.Slice, src *ssa.Parameter) bool {
+	start, ok := sl.Low.(*ssa.Phi)
+	if !ok {
+		return false
+	}
+	loops := findLoops(fn)
+	if len(loops) != 1 || start.Block() != loops[0].Header {
+		return false
+	}
+	lp := loops[0]
+	escByte := w.PkgFunc("util", "EscapeHTMLByte")
+	tblG := w.findEscapeTableGlobal()
+	// the lookup results in the loop
+	var lookups []ssa.Value
+	for b := range lp.Body {
+		for _, ins := range b.Instrs {
+			switch x := ins.(type) {
+			case *ssa.Call:
+				if escByte != nil && x.Common().StaticCallee() == escByte {
+					lookups = append(lookups, x)
+				}
+			case *ssa.UnOp:
+				if ia, ok := x.X.(*ssa.IndexAddr); ok && tblG != nil && ia.X == ssa.Value(tblG) {
+					lookups = append(lookups, x)
+				}
+			}
+		}
+	}
+	if len(lookups) == 0 {
+		return false
+	}
+	notEscaping := func(b *ssa.BasicBlock) bool { // b runs only when a lookup returned nil
+		for _, cf := range dominatingConds(b) {
+			for _, a := range condAtoms(cf.If.Cond, cf.Truth) {
+				if x, isNil, isT := nilTest(a.V); isT && isNil == a.Truth {
+					for _, l := range lookups {
+						if x == l {
+							return true
+						}
+					}
+				}
+			}
+		}
+		return false
+	}
+	// nilEdge: the edge from -> to is the "lookup returned nil" outcome of a test that ends block from
+	nilEdge := func(from, to *ssa.BasicBlock) bool {
+		iff, ok := from.Instrs[len(from.Instrs)-1].(*ssa.If)
+		if !ok || len(from.Succs) != 2 || from.Succs[0] == from.Succs[1] {
+			return false
+		}
+		for idx, succ := range from.Succs {
+			if succ != to {
+				continue
+			}
+			for _, a := range condAtoms(iff.Cond, idx == 0) {
+				if x, isNil, isT := nilTest(a.V); isT && isNil == a.Truth {
+					for _, l := range lookups {
+						if x == l {
+							return true
+						}
+					}
+				}
+			}
+		}
+		return false
+	}
+	seen := map[*ssa.Phi]bool{}
+	var okEdges func(phi *ssa.Phi) bool
+	okEdges = func(phi *ssa.Phi) bool {
+		if seen[phi] {
+			return true
+		}
+		seen[phi] = true
+		for i, e := range phi.Edges {
+			pred := phi.Block().Preds[i]
+			if phi == start && !lp.Body[pred] {
+				if c, isC := constInt(e); !isC || c != 0 {
+					return false
+				}
+				continue
+			}
+			switch x := e.(type) {
+			case *ssa.Phi:
+				if x == start {
+					// kept: only on the not-escaping route (the edge's source block, or the join it comes through)
+					if !notEscaping(pred) && !nilEdge(pred, phi.Block()) {
+						return false
+					}
+					continue
+				}
+				if !okEdges(x) {
+					return false
+				}
+			case *ssa.BinOp:
+				c, isC := constInt(x.Y)
+				if x.Op != token.ADD || !isC || c != 1 {
+					return false
+				}
+			default:
+				return false
+			}
+		}
+		return true
+	}
+	return okEdges(start)
+}
+
 func (w *World) isExaminedRange(fn *ssa.Function, s *Sink, src *ssa.Parameter) bool {
 	arg := s.Instr.Common().Args[0]
 	sl, ok := arg.(*ssa.Slice)
 	if !ok || sl.X != ssa.Value(src) || sl.Low == nil {
 		return false
+	}
+	if w.isExaminedRangeFromStart(fn, sl, src) {
+		return true
 	}
 	// low = X - n where n is a counter phi
 	b, ok := sl.Low.(*ssa.BinOp)
